@@ -60,6 +60,20 @@ theorem reentrant_sites_are_write_lock : (fullRelation.filter reentrant).all (fu
 theorem C35_partial (s : State) (h : Reach apiRelation s) : ¬ Deadlock s :=
   no_feasible_cycle_no_deadlock apiRelation Generated.nLocks relation_wellFormed relation_no_feasible_cycle s h
 
+/-- **Progress (generic)**: under the same hypothesis, in every reachable state every thread — in
+    particular every blocked one — transitively waits for a thread that can take a step (it is running, or
+    the lock it waits for is free).  Assumed, not modelled: that thread is eventually scheduled. -/
+theorem blocked_waits_for_runnable (A : List Acq) (n : Nat) (hwf : wellFormed A n = true)
+    (hno : hasFeasibleCycle A n = false) (s : State) (h : Reach A s) (t : Nat) :
+    ∃ u, WaitsStar s t u ∧ Runnable s u :=
+  progress_aux (reach_inv h) (held_lt hwf h) (no_feasible_cycle_no_deadlock A n hwf hno s h)
+    (n + 1) [] t (by simp) trivial (by simp; omega)
+
+/-- **Progress for the API relation**: if some thread is blocked, some thread can take a step. -/
+theorem C35_progress (s : State) (h : Reach apiRelation s) (t : Nat) :
+    ∃ u, WaitsStar s t u ∧ Runnable s u :=
+  blocked_waits_for_runnable apiRelation Generated.nLocks relation_wellFormed relation_no_feasible_cycle s h t
+
 /-- the relation really contains the `wal → label_interner` / `label_interner → wal` cycle that only
     the `write_lock` gate makes infeasible (non-vacuity of the gate argument) -/
 theorem gated_cycle_present : (⟨[0, 2], 4⟩ : Acq) ∈ apiRelation ∧ (⟨[0, 4], 2⟩ : Acq) ∈ apiRelation := by
